@@ -19,7 +19,7 @@ TrObs == Ev.op = "Obs" /\ SetViol(LenViol(Ev.len, Ev.waiting, Ev.final)) /\ UNCH
 TrStress ==
     /\ Ev.op = "Stress"
     /\ SetViol(IF Ev.maxinside > scfg.cap THEN "C17.sem.limit"
-               ELSE IF Ev.maxlen > scfg.cap \/ Ev.minlen < 0 THEN "C17.sem.len"
+               ELSE IF Ev.maxlen > scfg.cap \/ Ev.minlen < 0 THEN "C17.sem.len.stress"   \* terminal: the history ends here
                ELSE IF Ev.finallen # 0 \/ Ev.finalwaiting # 0 THEN "C17.sem.len.final"
                ELSE "")
     /\ UNCHANGED svars /\ l' = l + 1
